@@ -77,7 +77,19 @@ def cases_of(lib, rows_ok=None, results_ok=None):
         nd = f.get("ndef", 0)
         for p in ps[len(ps) - nd:]:
             p["default"] = {"int_v": "3", "long_v": "4", "double_v": "2.5", "bool_v": "true"}[p["kind"]]
-        out.append(K.F(name, f["result"], ps))
+        kw = {}
+        if f.get("gen"):
+            # Genericize: the first parameter passed as double (or long) may be given as float (int) by the caller
+            g = next(p for p in ps if p["kind"] in ("double_v", "long_v"))
+            alt, own = ("float", "double") if g["kind"] == "double_v" else ("int", "long")
+            kw["fgeneric"] = [{}, {g["name"]: "%s_for_%s" % (alt, own)}]
+            kw["yaml_extra"] = {"fortran_generic": [{"decl": "(%s %s)" % (alt, g["name"])}, {"decl": "(%s %s)" % (own, g["name"])}]}
+        if f.get("tmpl"):
+            # Templatize: the first parameter passed as int becomes the template parameter
+            t = next(p for p in ps if p["kind"] == "int_v")
+            t["kind"] = "T_v"
+            kw["template"] = ["int", "double"]
+        out.append(K.F(name, f["result"], ps, **kw))
     return out
 
 
@@ -105,7 +117,21 @@ def materialise(d, lib):
             "wrap_lua": o["wrap_lua"], "F_CFI": o["F_CFI"],
             "PY_array_arg": "list", "PY_struct_arg": "class"}
     cases = cases_of(lib)
-    y, hpp, cpp = cgen.gen_library(cases, lib["class"], opts, ns="ns1" if lib["ns"] else None)
+    y, hpp, cpp = cgen.gen_library(cases, lib["class"], opts, ns="ns1" if lib["ns"] else None, derived=lib.get("derived", False))
+    if o["wrap_python"] and lib["class"]:
+        # the corpus switches the Python (and Lua) wrapper off for a class instance returned by value
+        # (classes.yaml getClassCopy): there is no py_shadow_scalar_result statement
+        def prune_py(nodes):
+            keep = []
+            for n in nodes:
+                dcl = n.get("decl", "")
+                if any(w in dcl for w in ("dup()", "fresh(int v)")):
+                    continue
+                if "declarations" in n:
+                    n = dict(n, declarations=prune_py(n["declarations"]))
+                keep.append(n)
+            return keep
+        y["declarations"] = prune_py(y["declarations"])
     if o["wrap_lua"] and lib["class"]:
         # the Lua wrapper has no statements for class-typed arguments or results (docs/lua.rst): keep the
         # constructor, destructor and the methods on native values
@@ -113,7 +139,7 @@ def materialise(d, lib):
             keep = []
             for n in nodes:
                 dcl = n.get("decl", "")
-                if any(w in dcl for w in ("clone()", "add(const Cls", "make(int v)")):
+                if any(w in dcl for w in ("clone()", "add(const Cls", "make(int v)", "dup()", "fresh(int v)")):
                     continue
                 if "declarations" in n:
                     n = dict(n, declarations=prune(n["declarations"]))
@@ -482,7 +508,7 @@ def wide_library(rows=None, class_=True, defaults=False, **opts):
     return lib
 
 
-STR_ROWS = {"cstr_in", "str_cref", "str_ref_inout", "str_ref_out"}
+STR_ROWS = {"cstr_in", "tdstr_in", "str_cref", "str_ref_inout", "str_ref_out"}
 STR_RESULTS = {"cstr", "str_cref"}
 VEC_BUF_ROWS = {"vec_in", "vec_inout", "vec_out_alloc", "vec_inout_alloc"}
 CDESC_RESULTS = {"iptr3", "iptr23"}
@@ -497,13 +523,24 @@ def cfi_conflict(f):
     return stringy and (bool(set(f["params"]) & VEC_BUF_ROWS) or f["result"] in CDESC_RESULTS)
 
 
-def without_cfi_conflict(lib):
-    if not lib["opts"].get("F_CFI"):
-        return lib
+def known_cause(lib, f):
+    """The recorded finding (KNOWN_FINDINGS.txt, property C05) a function of a LibGen description runs into, or None.
+    Findings with many faces are recognised by the shape of the function, not by a compiler's wording."""
+    if f.get("tmpl") and f.get("ndef"):
+        # the variants for default arguments are cloned from the template itself and never instantiated
+        return "template-with-defaults"
+    if lib["opts"].get("F_CFI") and cfi_conflict(f):
+        return "cfi-clone-only"
+    return None
+
+
+def without_cfi_conflict(lib, causes=None):
+    """The description without the functions that run into a recorded finding (all of them, or those of `causes`)."""
     keep = []
     remap = {}
     for i, f in enumerate(lib["funcs"], 1):
-        if cfi_conflict(f):
+        kc = known_cause(lib, f)
+        if kc is not None and (causes is None or kc in causes):
             continue
         f = dict(f)
         if f["kind"] == "overload":
